@@ -438,12 +438,18 @@ impl Scala {
     }
 
     fn end_package_object(&mut self, w: &mut dyn Write) -> std::io::Result<()> {
-        writeln!(w, "}}")?;
+        // Only close what `begin_package_object` opened.
+        if self.package.contains('.') {
+            writeln!(w, "}}")?;
+        }
         Ok(())
     }
 
     fn end_package(&mut self, w: &mut dyn Write) -> std::io::Result<()> {
-        writeln!(w, "}}")?;
+        // Only close what `begin_package` opened.
+        if self.package.contains('.') {
+            writeln!(w, "}}")?;
+        }
         Ok(())
     }
 
